@@ -78,7 +78,7 @@ def check_slices(ctx: Ctx) -> None:
 
 
 def run_history(scen: dict, case: dict, storage: str, pool: str | None = None, progress: bool = False,
-                after=None) -> dict:
+                after=None, only: list[str] | None = None) -> dict:
     """pool: None = sequential; "thread" / "process" = every run of the history goes through a real pool of that kind
     (calls are then ordered by the append-only cross-process log file)."""
     pdesc = pmap.tla_desc_to_py(scen["desc"])
@@ -89,10 +89,17 @@ def run_history(scen: dict, case: dict, storage: str, pool: str | None = None, p
     ex = None
     if pool:
         from concurrent.futures import ProcessPoolExecutor, ThreadPoolExecutor
-        ex = ThreadPoolExecutor(3) if pool == "thread" else ProcessPoolExecutor(3)
+        ex = ProcessPoolExecutor(3) if pool == "process" else ThreadPoolExecutor(3)
     par = {"parallel": bool(pool), "executor": ex}
+    if pool == "async":                # every run through map_async (a thread pool executes)
+        par["use_async"] = True
     if progress:                       # the progress tracker shares code paths with the selection of elements
         par["show_progress"] = True
+    # only = function names: the PARTS are requested with output_names = the outputs of these functions (a sub-pipeline:
+    # a request on an axis is judged against the functions that run); the final full run takes the whole pipeline
+    sub = {}
+    if only:
+        sub = {"F": list(only), "output_names": {o for fd in pdesc["funcs"] if fd["name"] in only for o in fd["outputs"]}}
     shapes = ext_shapes(scen)
     evs: list[dict] = []
     try:
@@ -106,7 +113,7 @@ def run_history(scen: dict, case: dict, storage: str, pool: str | None = None, p
             evs += e
         else:
             for n, key in enumerate(case["parts"]):
-                e, res = pmap.do_map(pl, pdesc, inp, run_folder=folder, storage=storage, **par, cleanup=(n == 0),
+                e, res = pmap.do_map(pl, pdesc, inp, run_folder=folder, storage=storage, **par, cleanup=(n == 0), **sub,
                                      fixed_indices={"i": py_key(key)}, fixed_raw=[["i", key]], load=False)
                 evs += e
                 if isinstance(res, Exception):
@@ -124,26 +131,32 @@ def run_history(scen: dict, case: dict, storage: str, pool: str | None = None, p
         shutil.rmtree(folder, ignore_errors=True)
         with contextlib.suppress(FileNotFoundError):
             os.unlink(logf)
-    return {"desc": scen["desc"], "inputs": scen["inputs"], "ev": evs, "meta": {"storage": storage, "case": case, "pool": pool or "", "progress": progress}}
+    return {"desc": scen["desc"], "inputs": scen["inputs"], "ev": evs, "meta": {"storage": storage, "case": case, "pool": pool or "", "progress": progress, "only": only or []}}
 
 
-def run_learners(scen: dict, variant: str, seed: int) -> dict:
+def run_learners(scen: dict, variant: str, seed: int, case: dict | None = None) -> dict:
     """create_learners(...) executed element by element in a seeded random order that respects, per key, the order of the
     generations; then the completely stored elements are observed and a final full map must find nothing to do."""
     from pipefunc.map.adaptive import create_learners
     rng = random.Random(seed)
     pdesc = pmap.tla_desc_to_py(scen["desc"])
+    fixed = variant == "fixed-element"      # learners for the FIRST part of `case` (functions with resources_scope="element":
+    if fixed:                               # one learner per selected element), the other parts through map, then a full run
+        for fd in pdesc["funcs"]:
+            fd["elemscope"] = True
     build.reset_log()
     folder = tempfile.mkdtemp(prefix="pfverif_c06l_")
     shutil.rmtree(folder)
     shapes = ext_shapes(scen)
     fnames = [fd["name"] for fd in pdesc["funcs"]]
-    evs: list[dict] = [pmap.ev(e="begin", F=fnames, cleanup=True)]
+    evs: list[dict] = [pmap.ev(e="begin", F=fnames, cleanup=True, fixedraw=[["i", case["parts"][0]]] if fixed else [])]
     try:
         with contextlib.redirect_stdout(io.StringIO()):
             pl = build.make_pipeline(pdesc)
             inp = pmap.inputs_to_py(scen["inputs"], {n: "list" for n, _ in scen["inputs"]})
             kw = {"split_independent_axes": True} if variant == "split" else {}
+            if fixed:
+                kw = {"fixed_indices": {"i": py_key(case["parts"][0])}}
             learners = create_learners(pl, inp, folder, storage="file_array", cleanup=True, **kw)
             # per key: list of generations, each a list of (function, point) still to run
             todo = {k: [[(lp.learner._original_function, x) for lp in gen for x in lp.learner.sequence]  # noqa: SLF001
@@ -157,6 +170,13 @@ def run_learners(scen: dict, variant: str, seed: int) -> dict:
         evs += pmap.log_events(start)
         evs.append(pmap.ev(e="ldone"))
         evs.append(pmap.ev(e="stored", disk=observe_disk(folder, shapes)))
+        for key in (case["parts"][1:] if fixed else []):
+            e, res = pmap.do_map(pl, pdesc, inp, run_folder=folder, storage="file_array", parallel=False, cleanup=False,
+                                 fixed_indices={"i": py_key(key)}, fixed_raw=[["i", key]], load=False)
+            evs += e
+            if isinstance(res, Exception):
+                break
+            evs.append(pmap.ev(e="stored", disk=observe_disk(folder, shapes)))
         e, _ = pmap.do_map(pl, pdesc, inp, run_folder=folder, storage="file_array", parallel=False, cleanup=False)
         evs += e
     except Exception as ex:  # noqa: BLE001
@@ -164,7 +184,8 @@ def run_learners(scen: dict, variant: str, seed: int) -> dict:
     finally:
         shutil.rmtree(folder, ignore_errors=True)
     return {"desc": scen["desc"], "inputs": scen["inputs"], "ev": evs,
-            "meta": {"storage": "file_array", "case": {"kind": "learners", "variant": variant, "seed": seed, "parts": []}}}
+            "meta": {"storage": "file_array", "case": {"kind": "learners", "variant": variant, "seed": seed,
+                                                     "parts": case["parts"] if fixed else []}}}
 
 
 def classify(t: dict, reached: int) -> dict:
@@ -210,10 +231,20 @@ def run(ctx: Ctx) -> None:
         # the same histories through real pools (the partly filled arrays of a part are reopened by workers of the next run)
         multi = [c for c in chosen if len(c["parts"]) >= 2]
         for k, c in enumerate(multi[: (3 if quick else 18)]):
-            for pool in ("thread", "process"):
+            for pool in ("thread", "process", "async"):
                 traces.append(run_history(scen, c, storages[(k + (pool == "process")) % 3], pool=pool))
+        for k, c in enumerate(multi[:(2 if quick else 10)]):      # learners for a PART, element-scoped resources
+            traces.append(run_learners(scen, "fixed-element", ctx.seed * 100 + k, case=c))
         for k, c in enumerate(multi[:(2 if quick else 8)]):       # with the progress tracker on (sequential and thread pool)
             traces.append(run_history(scen, c, storages[k % 3], pool=None if k % 2 else "thread", progress=True))
+    # a sub-pipeline that EXCLUDES the reducing function: partitions of the axis are valid there (fan-out scenario, parts
+    # requested with output_names = {w}), the final full run adds the reducer
+    fan, _, _ = export(ctx, "fanout")
+    cons, ccases, _ = export(ctx, "consumer")
+    cmulti = [c for c in ccases if c["kind"] == "parts" and len(c["parts"]) >= 2]
+    rng.shuffle(cmulti)
+    for k, c in enumerate(cmulti[: (4 if quick else 30)]):
+        traces.append(run_history(fan, c, storages[k % 3], pool=[None, "thread", "async"][k % 3], only=["f", "g"]))
     # learners: one SequenceLearner per function (and per key with split_independent_axes), executed element by element
     for sc in (["outer", "consumer", "multi"] if quick else ["outer", "zip", "consumer", "reduceother", "multi", "internalfirst"]):
         scen, _, _ = export(ctx, sc) if sc not in ("outer", "consumer", "reduceother", "internalfirst") or True else (None, None, None)
@@ -262,7 +293,8 @@ def run(ctx: Ctx) -> None:
 def replay(rep: dict) -> int:
     w = rep["witness"]
     t = run_history({"desc": w["desc"], "inputs": w["inputs"]}, w["meta"]["case"], w["meta"]["storage"],
-                    pool=w["meta"].get("pool") or None, progress=bool(w["meta"].get("progress")))
+                    pool=w["meta"].get("pool") or None, progress=bool(w["meta"].get("progress")),
+                    only=w["meta"].get("only") or None)
     print([(x["e"], x["f"], x.get("cls", ""), len(x.get("disk", []))) for x in t["ev"]])
     ctx = Ctx(PROPERTY, "quick", 0)
     ctx.findings = []
